@@ -232,10 +232,49 @@ Proof.
   induction hs as [|h' hs IH]; intros h; [left; reflexivity|]. right. apply IH.
 Qed.
 
+(** ---- the growth formula regenerated from gc.c (Gen/C10_Consts.v [grow_formula]) ---- *)
+Lemma heap_align_mult n : (unit_sz | n) -> heap_align n = n.
+Proof.
+  intros [k ->]. unfold heap_align. pose proof unit_pos.
+  replace (k * unit_sz + unit_sz - 1) with (unit_sz - 1 + k * unit_sz) by lia.
+  rewrite Z.div_add by lia. rewrite Z.div_small by lia. lia.
+Qed.
+
+(** on aligned arguments the translated expression is FACTOR * max(cur, size) (FACTOR is integral) *)
+Lemma grow_formula_val cur size : (unit_sz | cur) -> (unit_sz | size) ->
+  grow_formula cur size = (factor_num * Z.max cur size + factor_den - 1) / factor_den.
+Proof.
+  intros Hc Hs. unfold grow_formula, cdiv. rewrite factor_integral.
+  assert (E : (if size <? cur then cur else size) = Z.max cur size).
+  { destruct (size <? cur) eqn:E; [apply Z.ltb_lt in E|apply Z.ltb_ge in E]; lia. }
+  rewrite E. rewrite heap_align_mult by (apply Z.max_case; assumption).
+  replace (1 * 1) with 1 by reflexivity. reflexivity.
+Qed.
+
+(** every segment size the formula produces from aligned arguments is a multiple of the alignment unit and
+    leaves room for the request behind the header: what [make_heap] needs to tile the new segment exactly *)
+Theorem grow_formula_aligned_lemma cur size : 0 <= cur -> (unit_sz | cur) -> 0 < size -> (unit_sz | size) ->
+  (unit_sz | grow_formula cur size) /\ hdr_sz + size <= grow_formula cur size.
+Proof.
+  intros Hc0 Hc Hs0 Hs. rewrite grow_formula_val by assumption. rewrite factor_integral.
+  replace (factor_num * Z.max cur size + 1 - 1) with (factor_num * Z.max cur size) by lia.
+  rewrite Z.div_1_r. pose proof factor_ge2. pose proof hdr_le_unit. pose proof unit_pos.
+  assert (unit_sz <= size) by (apply Z.divide_pos_le; assumption).
+  split; [apply Z.divide_mul_r; apply Z.max_case; assumption|nia].
+Qed.
+
+Lemma grow_size_val st size : Inv st -> (unit_sz | size) ->
+  grow_size st size = (factor_num * Z.max (hsize (last (heaps st) (make_heap 0))) size + factor_den - 1) / factor_den.
+Proof.
+  intros (Hne & Hinv & _) Hdiv. unfold grow_size. apply grow_formula_val; [|assumption].
+  destruct (last_heap_inv (heaps st) (make_heap 0) Hne Hinv) as (_ & _ & _ & _ & _ & _ & Hd). exact Hd.
+Qed.
+
 Lemma grow_size_ok st size : Inv st -> 0 < size -> (unit_sz | size) ->
   hdr_sz < grow_size st size /\ (unit_sz | grow_size st size).
 Proof.
-  intros (Hne & Hinv & _) Hs Hdiv. unfold grow_size. rewrite factor_integral.
+  intros HI Hs Hdiv. rewrite (grow_size_val st size HI Hdiv). destruct HI as (Hne & Hinv & _).
+  rewrite factor_integral.
   replace (factor_num * Z.max (hsize (last (heaps st) (make_heap 0))) size + 1 - 1)
     with (factor_num * Z.max (hsize (last (heaps st) (make_heap 0))) size) by lia.
   rewrite Z.div_1_r.
